@@ -12,7 +12,7 @@ use flsrc::uci::Flounder;
 use refchess::{Kind, Mv, Pos};
 use serde_json::{json, Value};
 
-pub const RULE: &str = "game histories with controlled multiplicities: from startpos or a generated valid FEN, a random prefix, then shuffle cycles (both sides move a man out and back, 0..3 full cycles, knight/king/rook/bishop/queen shuffles, with and without lost castling rights, vanished ep squares or an intervening irreversible move) and a partial cycle, so that the candidate successors of the final position P have 0, 1, 2 or >=3 earlier occurrences; 1..2 position commands on a fresh engine (only the last one's history may count; in a fifth of the cases the game is given first and then its final position again as a bare 'position fen …' / 'position startpos' without moves, whose history is that single position). Oracle (value level, through the real command path): 'position ...' then 'go depth 1'; the score of the completed depth-1 iteration must equal max over legal m of ( n(m) >= 2 ? 0 : -Q(P·m) ), Q = reference quiescence value, n(m) = occurrences of P·m in the most recent command's history. Successors whose count differs between the rule-book identity (ep only if capturable) and the exact-field identity are not judged. Non-trivial = the case discriminates (value with the draw rule != value without it, or a successor seen exactly once keeps its real non-zero value while deciding the maximum) ; distinct by command text. Part 'two-components' (ENUMERATED, 256 histories): a double pawn push on every file, then rook/king shuffles of both sides after which the position comes back WITHOUT its en-passant square AND without a castling right (two components differ at once: a different position by any reading), stopped one move before that later position would occur the second time: its value must be the real one. Part 'veteran': the same depth-1 oracle on an engine that keeps searching heavy middlegame positions in between (chunks of 1.4 M nodes ended by a node deadline; 9 chunks per engine quick, 40 thorough), one few-men case after every chunk — the tables hold hundreds of thousands of entries by then (maximum reported), nothing of which the case may use (a judged search that used a cached result is excluded). Part 'deep' (values two and three plies down): the same kind of game (mostly 3..6 men, often one or two plies off the shuffle cycle so that the twice-seen positions lie two or three plies below the root), then 'go depth 2|3' on a fresh engine; EVERY completed iteration i must report V_h(P,i) = plain minimax over the reference rules in which any position below the root that the judged history already shows twice is worth 0, leaves by the reference quiescence (with depth <= 3 no position can recur inside the line itself, and the deeper-entry-reuse counter must be 0). Cases whose value differs between the two identities of positions are not judged. Non-trivial there = the rule applied one ply below the root only would give another value (a draw two or three plies down decides), or an abandoned earlier game would; distinct by (command text, depth).";
+pub const RULE: &str = "game histories with controlled multiplicities: from startpos or a generated valid FEN, a random prefix, then shuffle cycles (both sides move a man out and back, 0..3 full cycles, knight/king/rook/bishop/queen shuffles, with and without lost castling rights, vanished ep squares or an intervening irreversible move) and a partial cycle, so that the candidate successors of the final position P have 0, 1, 2 or >=3 earlier occurrences; 1..2 position commands on a fresh engine (only the last one's history may count; in a fifth of the cases the game is given first and then its final position again as a bare 'position fen …' / 'position startpos' without moves, whose history is that single position). Oracle (value level, through the real command path): 'position ...' then 'go depth 1'; the score of the completed depth-1 iteration must equal max over legal m of ( n(m) >= 2 ? 0 : -Q(P·m) ), Q = reference quiescence value, n(m) = occurrences of P·m in the most recent command's history. Successors whose count differs between the rule-book identity (ep only if capturable) and the exact-field identity are not judged. Non-trivial = the case discriminates (value with the draw rule != value without it, or a successor seen exactly once keeps its real non-zero value while deciding the maximum) ; distinct by command text. Part 'two-components' (ENUMERATED, 1024 histories): a double pawn push on every file, then rook, king or knight shuffles of both sides (every combination of lost rights) after which the position comes back WITHOUT its en-passant square AND without a castling right (two components differ at once: a different position by any reading), stopped one move before that later position would occur the second time: its value must be the real one. Part 'veteran': the same depth-1 oracle on an engine that keeps searching heavy middlegame positions in between (chunks of 1.4 M nodes ended by a node deadline; 9 chunks per engine quick, 40 thorough), one few-men case after every chunk — the tables hold hundreds of thousands of entries by then (maximum reported), nothing of which the case may use (a judged search that used a cached result is excluded). Part 'deep' (values two and three plies down): the same kind of game (mostly 3..6 men, often one or two plies off the shuffle cycle so that the twice-seen positions lie two or three plies below the root), then 'go depth 2|3' on a fresh engine; EVERY completed iteration i must report V_h(P,i) = plain minimax over the reference rules in which any position below the root that the judged history already shows twice is worth 0, leaves by the reference quiescence (with depth <= 3 no position can recur inside the line itself, and the deeper-entry-reuse counter must be 0). Cases whose value differs between the two identities of positions are not judged. Non-trivial there = the rule applied one ply below the root only would give another value (a draw two or three plies down decides), or an abandoned earlier game would; distinct by (command text, depth).";
 
 pub fn reversible(p: &Pos, m: &Mv) -> bool {
     let i = p.info(*m);
@@ -722,16 +722,21 @@ thread_local! {
 fn two_component_cases() -> Vec<(String, Vec<Pos>)> {
     // the side that answers the push has a bishop more: at the end the pusher is to move and stands
     // worse, so a draw wrongly seen in the move that completes the shuffle would raise its value
-    let base = Pos::from_fen("r1b1k2r/pppppppp/8/8/8/8/PPPPPPPP/R3K2R w KQkq - 0 1").unwrap().0;
-    // shuffles of the side that answers the push (black in the unmirrored game) and of the pusher
-    let answer = [("h8g8", "g8h8"), ("a8b8", "b8a8"), ("e8d8", "d8e8"), ("e8f8", "f8e8")];
-    let pusher = [("h1g1", "g1h1"), ("a1b1", "b1a1"), ("e1d1", "d1e1"), ("e1f1", "f1e1")];
+    let bases: Vec<Pos> = ["r1b1k2r/pppppppp/8/8/8/8/PPPPPPPP/R3K2R w KQkq - 0 1", "rnb1k2r/pppppppp/8/8/8/8/PPPPPPPP/R3K2R w KQkq - 0 1", "r1b1k2r/pppppppp/8/8/8/8/PPPPPPPP/RN2K2R w KQkq - 0 1", "rnb1k2r/pppppppp/8/8/8/8/PPPPPPPP/RN2K2R w KQkq - 0 1"]
+        .iter()
+        .map(|f| Pos::from_fen(f).unwrap().0)
+        .collect();
+    // shuffles of the side that answers the push (black in the unmirrored game) and of the pusher:
+    // rook and king shuffles lose rights, the knight shuffle loses none
+    let answer = [("h8g8", "g8h8"), ("a8b8", "b8a8"), ("e8d8", "d8e8"), ("e8f8", "f8e8"), ("b8c6", "c6b8")];
+    let pusher = [("h1g1", "g1h1"), ("a1b1", "b1a1"), ("e1d1", "d1e1"), ("e1f1", "f1e1"), ("b1c3", "c3b1")];
     let flip = |m: &str| -> String {
         let b = m.as_bytes();
         let fr = |c: u8| (b'1' + (7 - (c - b'1'))) as char;
         format!("{}{}{}{}", b[0] as char, fr(b[1]), b[2] as char, fr(b[3]))
     };
     let mut out = Vec::new();
+    for base in &bases {
     for mirrored in [false, true] {
         for file in 0..8u8 {
             for (a, ar) in answer {
@@ -765,6 +770,9 @@ fn two_component_cases() -> Vec<(String, Vec<Pos>)> {
             }
         }
     }
+    }
+    out.sort_by(|x, y| x.0.cmp(&y.0));
+    out.dedup_by(|x, y| x.0 == y.0);
     out
 }
 
